@@ -22,6 +22,9 @@ def gen_inputs(rng, spec, n=None, capacity_ok=None):
     p_closed = float(rng.choice([0.4, 0.7, 1.0]))
     breaker = [[bool(rng.random() < p_closed) for _ in range(n)] for _ in ties]
     inp = {"n": n, "dt": [float(rng.choice([1.0, 10.0, 60.0, 600.0])) for _ in range(n)], "breaker": breaker, "comp": {}}
+    # on/off series are handed over as booleans or as 0/1 numbers (the repository's own tests do both)
+    inp["dtype"] = {"status": str(rng.choice(["bool", "int", "float"], p=[0.6, 0.2, 0.2])),
+                    "breaker": str(rng.choice(["bool", "int", "float"], p=[0.6, 0.2, 0.2]))}
     if capacity_ok is None:
         capacity_ok = rng.random() < 0.9
     total_src = sum(c["rated"] for c in spec["electric"] if c["kind"] in SOURCE_KINDS)
@@ -51,20 +54,22 @@ def apply_inputs(plant, inp, copy=True):
     sys_ = plant.electric
     n = inp["n"]
     arr = (lambda x, dt=float: np.array(x, dtype=dt)) if copy else (lambda x, dt=float: x)
+    DT = {"bool": bool, "int": int, "float": float}
+    st_dt, br_dt = DT[inp.get("dtype", {}).get("status", "bool")], DT[inp.get("dtype", {}).get("breaker", "bool")]
     for c in plant.spec["electric"]:
         obj, d, k = plant.by_name[c["name"]], inp["comp"][c["name"]], c["kind"]
         if k in SOURCE_KINDS:
-            obj.status = np.array(d["status"], dtype=bool)
+            obj.status = np.array(d["status"], dtype=st_dt)
             obj.load_sharing_mode = np.array(d["share"], dtype=float)
         elif k in ("other_load", "drive"):
             obj.set_power_input_from_output(np.array(d["load"], dtype=float))
         else:
-            obj.status = np.array(d["status"], dtype=bool)
+            obj.status = np.array(d["status"], dtype=st_dt)
             obj.load_sharing_mode = np.array(d["mode"], dtype=float)
             obj.power_input = np.array(d["given"], dtype=float)
     ties = plant.spec.get("bus_ties", [])
     if ties:
-        sys_.set_bus_tie_status_all(np.array(inp["breaker"], dtype=bool).T.reshape(n, len(ties)))
+        sys_.set_bus_tie_status_all(np.array(inp["breaker"], dtype=br_dt).T.reshape(n, len(ties)))
     sys_.set_time_interval(np.array(inp["dt"], dtype=float), integration_method=IntegrationMethod.sum_with_time)
 
 
